@@ -762,7 +762,7 @@ def compare_tensor(out, tag, klass, res, ref, info):
     if klass == "contract":
         ref64, mag = info["ref64"], info["mag"]
         K = info["K"]
-        tol = (K + 4) * u * mag + 3 * u * ref64.abs() + (K + 4) * info.get("cmax2", 1.0) * eta + eta
+        tol = (K + 4) * u * mag + 3 * u * ref64.abs() + eta  # (no allowance for a scale product formed in reduced precision, D46)
         fin = ref64.abs() + tol < gen.FMAX.get(dtype, 1e300)
         bad = fin & ~((d64 - ref64).abs() <= tol)
         if bool(bad.any()):
